@@ -90,80 +90,197 @@ def run(repo: Repo, chk: Check) -> None:
     l2_obligations(repo, chk)
 
 
+def lookup_chain(e: ast.AST) -> t.Optional[t.Tuple[str, t.List[str]]]:
+    """`base.setdefault(k1, {}).get(k2, None)[k3]`  ->  (base text, [k1, k2, k3]); None if e is not such a chain."""
+    keys: t.List[str] = []
+    cur = e
+    while True:
+        if isinstance(cur, ast.Subscript):
+            keys.append(unparse(cur.slice))
+            cur = cur.value
+        elif isinstance(cur, ast.Call) and isinstance(cur.func, ast.Attribute) and cur.func.attr in ("get", "setdefault") and 1 <= len(cur.args) <= 2 and not cur.keywords:
+            if len(cur.args) == 2 and not (isinstance(cur.args[1], ast.Dict) and not cur.args[1].keys or (isinstance(cur.args[1], ast.Constant) and cur.args[1].value is None)):
+                return None
+            keys.append(unparse(cur.args[0]))
+            cur = cur.func.value
+        else:
+            break
+    if not keys or not isinstance(cur, ast.Attribute):
+        return None
+    return unparse(cur), list(reversed(keys))
+
+
+class _Abbrev(ast.NodeTransformer):
+    """Replace dictionary look-ups by short names: {(base, (k1, k2, k3)): name}."""
+
+    def __init__(self, table: t.Dict[t.Tuple[str, t.Tuple[str, ...]], str]) -> None:
+        self.table = table
+
+    def visit(self, node: ast.AST) -> t.Any:
+        if isinstance(node, (ast.Call, ast.Subscript)) and isinstance(getattr(node, "ctx", ast.Load()), ast.Load):
+            ch = lookup_chain(node)
+            if ch is not None and (ch[0], tuple(ch[1])) in self.table:
+                return ast.Name(id=self.table[(ch[0], tuple(ch[1]))], ctx=ast.Load())
+        return self.generic_visit(node)
+
+
+def _abbr(tree: t.Optional[ast.AST], table: t.Dict[t.Tuple[str, t.Tuple[str, ...]], str]) -> t.Optional[ast.AST]:
+    import copy
+
+    if tree is None:
+        return None
+    return _Abbrev(table).visit(copy.deepcopy(tree))
+
+
+def _presence(e: ast.expr, name: str) -> t.Optional[bool]:
+    """Is e a presence test of `name`?  -> the truth value of e when the entry exists (None: not a presence test)."""
+    if isinstance(e, ast.Name) and e.id == name:
+        return True
+    if isinstance(e, ast.Compare) and len(e.ops) == 1 and isinstance(e.left, ast.Name) and e.left.id == name and isinstance(e.comparators[0], ast.Constant) and e.comparators[0].value is None:
+        if isinstance(e.ops[0], (ast.IsNot, ast.NotEq)):
+            return True
+        if isinstance(e.ops[0], (ast.Is, ast.Eq)):
+            return False
+    return None
+
+
+def _scenarios(paths: t.List[t.Any], table: t.Dict[t.Tuple[str, t.Tuple[str, ...]], str], entry: str, fa: t.Dict[str, str], fb: t.Dict[str, str]) -> t.Iterator[t.Tuple[t.Dict[str, int], bool, t.Dict[str, bool], t.List[t.Any]]]:
+    """For every sign vector (entry position ? other position), entry present/absent and every valuation of the
+    remaining (free) atoms: the paths whose decided conditions are all consistent with the scenario."""
+    import itertools
+
+    per_path: t.List[t.List[t.Tuple[ast.expr, bool]]] = []
+    free: t.List[str] = []
+    for ps in paths:
+        atoms = [(t.cast(ast.expr, _abbr(ps.owner.renamed(e), table)), pol) for e, pol in ps.atoms()]
+        per_path.append(atoms)
+        for e, _ in atoms:
+            if _presence(e, entry) is None and not _is_order(e, fa, fb):
+                txt = unparse(e)
+                if txt not in free:
+                    free.append(txt)
+    if len(free) > 6:
+        raise AnalysisError(f"too many independent conditions to enumerate: {free}")
+    for vec in ordertab.vectors(ROLES):
+        sign = ordertab.pair_sign(fa, fb, vec)
+        for exists in (True, False):
+            for combo in itertools.product((False, True), repeat=len(free)):
+                val = dict(zip(free, combo))
+                feas = []
+                for ps, atoms in zip(paths, per_path):
+                    ok = True
+                    for e, pol in atoms:
+                        pr = _presence(e, entry)
+                        if pr is not None:
+                            v = pr if exists else not pr
+                        elif _is_order(e, fa, fb):
+                            if not exists:
+                                v = None  # the entry's position is read although there is no entry
+                            else:
+                                v = ordertab.eval_pred(e, sign, None)
+                        else:
+                            v = val[unparse(e)]
+                        if v is None:
+                            ok = False
+                            break
+                        if v != pol:
+                            ok = False
+                            break
+                    if ok:
+                        feas.append(ps)
+                yield vec, exists, val, feas
+
+
+def _is_order(e: ast.expr, fa: t.Dict[str, str], fb: t.Dict[str, str]) -> bool:
+    if not isinstance(e, ast.Compare):
+        return False
+    names = set(fa) | set(fb)
+
+    def leaf_ok(x: ast.expr) -> bool:
+        if isinstance(x, (ast.Tuple, ast.List)):
+            return all(leaf_ok(y) for y in x.elts)
+        return unparse(x) in names
+
+    return all(leaf_ok(x) for x in [e.left] + list(e.comparators))
+
+
 def get_key(repo: Repo, chk: Check) -> None:
+    from sa.pathsum import Summary
+
+    from .util import args_of
+
     f = repo.method("_client.KeyCache", "_get_key")
     chk.analysed(f)
-    g = build(f.node)
-    rd = ReachingDefs(f, g)
-    rets = sorted([n for n in body_nodes(f.node) if isinstance(n, ast.Return)], key=lambda n: n.lineno)
-    cached_returns = 0
+    summ = Summary(f, ["self", "target_sd", "root_key_id", "l0", "l1", "l2"])
+    table = {("self._seed_keys", ("root_key_id", "target_sd", "l0")): "E", ("self._root_keys", ("root_key_id",)): "R"}
+    fa = {"E.l1": "l1", "E.l2": "l2"}
+    fb = {"l1": "l1", "l2": "l2"}
+    rets = summ.returning()
+    if not rets:
+        raise AnalysisError("_get_key: no returning path")
+
+    def outcome(ps: t.Any) -> str:
+        v = _abbr(ps.owner.renamed(ps.value), table)
+        if isinstance(v, ast.Constant) and v.value is None:
+            return "none"
+        if isinstance(v, ast.Name) and v.id == "E":
+            return "stored"
+        if isinstance(v, ast.Call) and unparse(v.func) == "GroupKeyEnvelope":
+            return "root"
+        return "other"
+
+    bad: t.List[str] = []
+    rows = []
+    kinds = set()
+    try:
+        for vec, exists, val, feas in _scenarios(rets, table, "E", fa, fb):
+            outs = sorted({outcome(p) for p in feas})
+            kinds |= set(outs)
+            rows.append((vec["l1"], vec["l2"], exists, tuple(sorted(val.items())), outs))
+            where = f"stored {_w(vec['l1'])} L1 / {_w(vec['l2'])} L2" if exists else "no entry stored"
+            if not feas:
+                if exists or vec == {"l1": 0, "l2": 0}:
+                    bad.append(f"{where}: no path of _get_key is consistent with this case (an exception escapes, e.g. the position of a missing entry is read)")
+                continue
+            covers = exists and ordertab.lex_cmp(vec, ROLES) >= 0
+            if covers and outs != ["stored"]:
+                bad.append(f"{where}: not returned although it covers (needless RPC / a non-covering answer {outs})")
+            if not covers and "stored" in outs:
+                bad.append(f"{where}: returned although it does not cover")
+    except ordertab.NotOrderPredicate as e:
+        bad.append(f"cover test contains '{e}' which is not a comparison of stored and requested position")
+    chk.table("_get_key outcome table (sign l1, sign l2, entry present, other atoms, outcomes)", rows)
+    site1 = Site.of(f, construct="_get_key: stored envelope returned iff it covers")
+    chk.ob("O1", site1, not bad, "stored envelope returned iff its position is >=lex the requested one (all sign vectors x entry present/absent x other conditions)" if not bad else "; ".join(sorted(set(bad))[:3]))
+    chk.ob("O1", Site.of(f, construct="cached return sites"), "stored" in kinds, "a covering stored envelope is served from the cache" if "stored" in kinds else "no path returns the stored envelope: every call goes to the DC")
+    chk.ob("O1", Site.of(f, construct="cache lookup"), "stored" in kinds, "lookup keyed by (root key id, target SD, L0)" if "stored" in kinds else "the cache lookup is not keyed by root key id, target SD and L0")
     root_returns = 0
-    for r in rets:
-        v = r.value
-        site = Site.of(f, r)
-        if v is None or (isinstance(v, ast.Constant) and v.value is None):
+    for ps in rets:
+        o = outcome(ps)
+        site = Site.of(f, ps.exit_node)
+        if o == "other":
+            chk.ob("O2", site, False, f"_get_key returns {ps.text(ps.value)[:80]}: neither the covering stored envelope nor the root-key envelope (a dict.setdefault/get result can be a stored non-covering envelope)")
+        if o != "root":
             continue
-        nid = g.first_of_stmt.get(r)
-        guards = g.guards_of(nid) if nid is not None else []
-        if isinstance(v, ast.Name):
-            ds = rd.reaching(v.id, r)
-            if len(ds) == 1 and ds[0].value is not None and isinstance(ds[0].value, ast.Call) and unparse(ds[0].value.func) == "GroupKeyEnvelope":
-                root_returns += 1
-                ctor = ds[0].value
-                kws = {k.arg: k.value for k in ctor.keywords if k.arg}
-                ok31 = all(k in kws and repo.try_fold(kws[k], f.mod) == (True, 31) for k in ("l1", "l2"))
-                chk.ob("O2", site, ok31, "root-key envelope built at (31, 31): it covers every position of the L0 interval" if ok31 else f"the envelope built from the root key is at ({unparse(kws.get('l1'))}, {unparse(kws.get('l2'))}), not (31, 31)")
-                okl0 = "l0" in kws and unparse(kws["l0"]) == "l0"
-                chk.ob("O2", site, okl0, "for the requested L0" if okl0 else "root-key envelope is not built for the requested L0")
-                lk = kws.get("l1_key")
-                d1 = rd.single_def(unparse(lk), ctor) if isinstance(lk, ast.Name) else None
-                okk = d1 is not None and isinstance(d1.value, ast.Call) and unparse(d1.value.func) == "compute_l1_key"
-                chk.ob("O2", site, okk, "its L1 seed is compute_l1_key(target_sd, root_key_id, l0, ...)" if okk else "root-key envelope l1_key is not the compute_l1_key result")
-                okroot = any(unparse(c) == "root_key" and pol for c, pol in guards)
-                chk.ob("O2", site, okroot, "only when the root key is loaded")
-                continue
-            # a value read back from the cache: must be returned under the cover predicate
-            cover = [(c, pol) for c, pol in guards if isinstance(c, (ast.BoolOp, ast.Compare)) or unparse(c) == v.id]
-            del cover
-            truthy = any(unparse(c) == v.id and pol for c, pol in guards)
-            enclosing = [n for n in body_nodes(f.node) if isinstance(n, ast.If) and any(x is r for x in n.body)]
-            preds = []
-            if enclosing:
-                test = enclosing[0].test
-                conj = list(test.values) if isinstance(test, ast.BoolOp) and isinstance(test.op, ast.And) else [test]
-                preds = [c for c in conj if unparse(c) != v.id]
-            if not preds:
-                chk.ob("O1", site, False, f"{v.id} is returned from the cache without a position test")
-                continue
-            cached_returns += 1
-            pred = preds[0] if len(preds) == 1 else ast.BoolOp(op=ast.And(), values=preds)
-            fa = {f"{v.id}.l1": "l1", f"{v.id}.l2": "l2"}
-            fb = {"l1": "l1", "l2": "l2"}
-            try:
-                rows = lex_table(pred, fa, fb)
-            except ordertab.NotOrderPredicate as e:
-                chk.ob("O1", site, False, f"cover test contains '{e}' which is not a comparison of stored and requested position")
-                continue
-            bad = []
-            for a, b, combo, val in rows:
-                covers = ordertab.lex_cmp({"l1": a, "l2": b}, ROLES) >= 0
-                if val != covers:
-                    bad.append(f"stored {_w(a)} L1 / {_w(b)} L2" + (f" with other conditions {combo}" if combo else "") + (": returned although it does not cover" if val else ": not returned although it covers (needless RPC)"))
-            chk.table("_get_key cover truth table (sign l1, sign l2, atoms, returned)", rows)
-            chk.ob("O1", site, not bad and truthy, "stored envelope returned iff its position is >=lex the requested one" if not bad and truthy else "; ".join(bad[:3]) or "missing presence test")
-            continue
-        chk.ob("O2", site, False, f"_get_key returns {unparse(v)[:80]}: neither the covering stored envelope nor the root-key envelope (a dict.setdefault/get result can be a stored non-covering envelope)")
-    chk.ob("O1", Site.of(f, construct="cached return sites"), cached_returns >= 1, f"{cached_returns} cover-tested cache return(s)")
-    chk.ob("O2", Site.of(f, construct="root key return sites"), root_returns >= 1, f"{root_returns} root-key envelope return(s)")
-    # the root envelope is what gets stored: a subscript store of that name under [l0]
-    stores = [n for n in body_nodes(f.node) if isinstance(n, ast.Assign) and isinstance(n.targets[0], ast.Subscript)]
-    oks = any(unparse(s.targets[0].slice) == "l0" and isinstance(s.value, ast.Name) for s in stores)
-    sd = [n for n in body_nodes(f.node) if isinstance(n, ast.Call) and isinstance(n.func, ast.Attribute) and n.func.attr == "setdefault" and len(n.args) == 2 and unparse(n.args[0]) == "l0"]
-    chk.ob("O2", Site.of(f, stores[0] if stores else (sd[0] if sd else None), None if (stores or sd) else "store of the root envelope"), oks and not sd, "the covering root-key envelope replaces whatever was stored for this L0" if oks and not sd else "the root-key envelope is not stored with a plain assignment under [l0] (setdefault keeps a stored non-covering envelope)")
-    # the lookup itself keys by (root_key_id, target_sd, l0)
-    look = [n for n in body_nodes(f.node) if isinstance(n, ast.Assign) and isinstance(n.value, ast.Call) and isinstance(n.value.func, ast.Attribute) and n.value.func.attr == "get" and "_seed_keys" in unparse(n.value)]
-    okk = bool(look) and all(k in unparse(look[0].value) for k in ("root_key_id", "target_sd")) and unparse(look[0].value.args[0]) == "l0"
-    chk.ob("O1", Site.of(f, look[0] if look else None, None if look else "cache lookup"), okk, "lookup keyed by (root key id, target SD, L0)" if okk else "the cache lookup is not keyed by root key id, target SD and L0")
+        root_returns += 1
+        ctor = t.cast(ast.Call, ps.value)
+        kws = args_of(repo, f, ctor)
+        ok31 = all(k in kws and repo.try_fold(kws[k], f.mod) == (True, 31) for k in ("l1", "l2"))
+        chk.ob("O2", site, ok31, "root-key envelope built at (31, 31): it covers every position of the L0 interval" if ok31 else f"the envelope built from the root key is at ({ps.text(kws.get('l1'))}, {ps.text(kws.get('l2'))}), not (31, 31)")
+        okl0 = "l0" in kws and ps.text(kws["l0"]) == "l0"
+        chk.ob("O2", site, okl0, "for the requested L0" if okl0 else "root-key envelope is not built for the requested L0")
+        lk = kws.get("l1_key")
+        c1 = ps.calls("compute_l1_key")
+        okk = lk is not None and len(c1) == 1 and ps.key(lk) == ps.key(c1[0].tree)
+        chk.ob("O2", site, okk, "its L1 seed is compute_l1_key(target_sd, root_key_id, l0, ...)" if okk else "root-key envelope l1_key is not the compute_l1_key result")
+        atoms = [(unparse(_abbr(ps.owner.renamed(e), table)), pol) for e, pol in ps.atoms()]
+        okroot = ("R", True) in atoms or ("R is not None", True) in atoms or ("R is None", False) in atoms
+        chk.ob("O2", site, okroot, "only when the root key is loaded")
+        # the root envelope is what gets stored for this L0 (plain store: it replaces a non-covering entry)
+        st = [e for e in ps.stores() if (lookup_chain(e.target) or ("", []))[1] == ["root_key_id", "target_sd", "l0"] and (lookup_chain(e.target) or ("", []))[0] == "self._seed_keys"]
+        oks = len(st) == 1 and ps.key(st[0].tree) == ps.key(ctor)
+        chk.ob("O2", Site.of(f, st[0].node if st else ps.exit_node, None if st else "store of the root envelope"), oks, "the covering root-key envelope replaces whatever was stored for this L0" if oks else "the root-key envelope is not stored with a plain assignment under [root key id][SD][l0] (setdefault keeps a stored non-covering envelope)")
+    chk.ob("O2", Site.of(f, construct="root key return sites"), root_returns >= 1, f"{root_returns} root-key envelope return path(s)")
 
 
 def _w(s: int) -> str:
@@ -171,47 +288,53 @@ def _w(s: int) -> str:
 
 
 def store_key(repo: Repo, chk: Check) -> None:
+    from sa.pathsum import Summary
+
     f = repo.method("_client.KeyCache", "_store_key")
     chk.analysed(f)
-    g = build(f.node)
-    stores = [n for n in body_nodes(f.node) if isinstance(n, ast.Assign) and isinstance(n.targets[0], ast.Subscript)]
-    if len(stores) != 1:
-        raise AnalysisError("_store_key: store statement changed")
-    s = stores[0]
-    site = Site.of(f, s)
-    okt = unparse(s.targets[0].slice) == "key.l0" and unparse(s.value) == "key"
-    chk.ob("O3", site, okt, "stores the envelope under its own L0" if okt else f"{unparse(s)}")
-    nid = g.first_of_stmt.get(s)
-    guards = g.guards_of(nid) if nid is not None else []
-    ifs = [n for n in body_nodes(f.node) if isinstance(n, ast.If) and any(x is s for x in n.body)]
-    if not ifs:
-        chk.ob("O3", site, False, "the store is unconditional: an earlier position can replace a later one")
-        return
-    pred = ifs[0].test
-    ex = [n for n in body_nodes(f.node) if isinstance(n, ast.Assign) and unparse(n.targets[0]) == "existing"]
-    exname = "existing"
+    summ = Summary(f, ["self", "target_sd", "key"])
+    table = {("self._seed_keys", ("key.root_key_identifier", "target_sd", "key.l0")): "X"}
     fa = {"key.l1": "l1", "key.l2": "l2"}
-    fb = {f"{exname}.l1": "l1", f"{exname}.l2": "l2"}
+    fb = {"X.l1": "l1", "X.l2": "l2"}
+    rets = summ.returning()
+    if not rets:
+        raise AnalysisError("_store_key: no returning path")
+
+    def stored(ps: t.Any) -> t.Optional[bool]:
+        st = [e for e in ps.stores() if (lookup_chain(e.target) or ("", []))[0] == "self._seed_keys"]
+        if not st:
+            return False
+        if len(st) == 1 and (lookup_chain(st[0].target) or ("", []))[1] == ["key.root_key_identifier", "target_sd", "key.l0"] and ps.text(st[0].tree) == "key":
+            return True
+        return None
+
+    bad: t.List[str] = []
+    rows = []
+    any_store = False
     try:
-        rows = lex_table(pred, fa, fb)
+        for vec, exists, val, feas in _scenarios(rets, table, "X", fa, fb):
+            outs = {stored(p) for p in feas}
+            rows.append((vec["l1"], vec["l2"], exists, tuple(sorted(val.items())), sorted(map(str, outs))))
+            if not exists and vec != {"l1": 0, "l2": 0}:
+                continue  # without an entry the sign vector is meaningless: one representative
+            where = f"new envelope with {_w(vec['l1'])} L1 / {_w(vec['l2'])} L2 than the stored one" if exists else "no entry stored"
+            if not feas:
+                bad.append(f"{where}: no path of _store_key is consistent with this case (an exception escapes)")
+                continue
+            if None in outs:
+                bad.append(f"{where}: the store is not 'entry[root key id][SD][key.l0] = key'")
+                continue
+            want = True if not exists else ordertab.lex_cmp(vec, ROLES) > 0
+            any_store = any_store or True in outs
+            if outs != {want}:
+                bad.append(f"{where} is " + ("stored" if True in outs else "dropped") + (" (no entry)" if not exists else ""))
     except ordertab.NotOrderPredicate as e:
-        chk.ob("O3", Site.of(f, pred), False, f"store condition contains '{e}'")
-        return
-    bad = []
-    for a, b, combo, val in rows:
-        # free atom: "not existing" -> if no entry exists: must store; if exists: store iff strictly later
-        names = [x for x in _free_atoms(pred, fa, fb)]
-        env = dict(zip(names, combo))
-        no_entry = env.get(f"not {exname}", False) or (env.get(exname) is False)
-        later = ordertab.lex_cmp({"l1": a, "l2": b}, ROLES) > 0
-        want = True if no_entry else later
-        if val != want:
-            bad.append(f"new envelope with {_w(a)} L1 / {_w(b)} L2 than the stored one is " + ("stored" if val else "dropped") + (" (no entry)" if no_entry else ""))
-    chk.table("_store_key truth table", rows)
-    chk.ob("O3", Site.of(f, pred), not bad, "overwrite iff no entry or new position >lex stored position" if not bad else "; ".join(sorted(set(bad))[:3]))
-    okx = bool(ex) and "key.l0" in unparse(ex[0].value) and ".get(" in unparse(ex[0].value)
-    chk.ob("O3", Site.of(f, ex[0] if ex else None, None if ex else "existing lookup"), okx, "compared with the entry stored for the same L0" if okx else "the existing entry is not looked up by key.l0")
-    del guards
+        bad.append(f"store condition contains '{e}'")
+    chk.table("_store_key outcome table", rows)
+    site = Site.of(f, construct="_store_key: overwrite iff no entry or later position")
+    if not any_store and not bad:
+        bad.append("no path stores the envelope")
+    chk.ob("O3", site, not bad, "stores under its own (root key id, SD, L0); overwrite iff no entry or new position >lex stored position (all sign vectors x entry present/absent)" if not bad else "; ".join(sorted(set(bad))[:3]))
 
 
 def _free_atoms(pred: ast.expr, fa: t.Dict[str, str], fb: t.Dict[str, str]) -> t.List[str]:
